@@ -79,6 +79,7 @@ pub fn shape_name(s: Shape) -> &'static str {
         Shape::CloneThen => "clone_then",
         Shape::RawThen => "raw_then",
         Shape::CapSpecial => "cap_special",
+        Shape::Placement => "placement",
     }
 }
 pub fn shape_from(s: &str) -> Option<Shape> {
@@ -89,6 +90,7 @@ pub fn shape_from(s: &str) -> Option<Shape> {
         "clone_then" => Some(Shape::CloneThen),
         "raw_then" => Some(Shape::RawThen),
         "cap_special" => Some(Shape::CapSpecial),
+        "placement" => Some(Shape::Placement),
         _ => None,
     }
 }
